@@ -41,12 +41,22 @@ def run_case(case, rec):
             rec.note('outcome_mismatch(left to C01)')
             return False
     G, M = d.G, d.M
+    # every second case gets an isolated node with (possibly falsy / nested) attributes, when the universe has a spare id
+    spare = [n for n in d.nodes if n not in M.nodes]
+    if spare and len(case['ops']) % 2 == 0:
+        iso_attrs = {'Label': case.get('gattr', {}).get('meta', 0), 'w': ''}
+        G.add_node(spare[0], **copy.deepcopy(iso_attrs))
+        M.add_node(spare[0], iso_attrs)
     G.graph.update(copy.deepcopy(case.get('gattr', {})))
     M.graph = copy.deepcopy(dict(G.graph))
     idk = case.get('idkey', 'id')
     attrs = dict(id=idk, source='source', target='target')
     ctx = '%s id key %r' % (case['cls'], idk)
     rec.classify('idkey:' + idk)
+    from ..observe import observe as _obs
+    okb, before_obs = safe(_obs, G, d.nodes, M.probes())
+    if not okb:
+        before_obs = None
     ok, data = safe(lambda: json_graph.node_link_data(G) if idk == 'id' else json_graph.node_link_data(G, attrs=attrs))
     if not rec.check('C11.data.call', ok, lambda: '%s node_link_data raised %r' % (ctx, data)):
         return False
@@ -73,6 +83,13 @@ def run_case(case, rec):
         got = Counter((((l['source'], l['target']) if d.directed else frozenset((l['source'], l['target']))), l['time']) for l in links)
         rec.check('C11.links', got == exp, lambda: '%s links missing %r, unexpected %r' % (
             ctx, sorted((exp - got).elements(), key=repr)[:5], sorted((got - exp).elements(), key=repr)[:5]))
+    # ---- calling again gives the same data and the source graph is untouched by all of this
+    ok, data2 = safe(lambda: json_graph.node_link_data(G) if idk == 'id' else json_graph.node_link_data(G, attrs=attrs))
+    rec.check('C11.data.stable', ok and json.dumps(data2, sort_keys=True) == json.dumps(json.loads(text), sort_keys=True),
+              lambda: '%s second node_link_data call differs: %r vs %r' % (ctx, data2, data))
+    okd, data3 = safe(json_graph.node_link_data, G)
+    rec.check('C11.data.stable', okd and all('id' in x for x in data3['nodes']),
+              lambda: '%s default id key after a call with a custom one: %r' % (ctx, data3))
     # ---- rebuild
     back = json.loads(text)
     ok, H = safe(lambda: json_graph.node_link_graph(copy.deepcopy(back)) if idk == 'id' else json_graph.node_link_graph(copy.deepcopy(back), attrs=attrs))
@@ -99,6 +116,10 @@ def run_case(case, rec):
         if rec.check('C11.directed_arg', ok, lambda: '%s node_link_graph(data without key, directed=%r) raised %r' % (ctx, arg, H3)):
             want = dn.DynDiGraph if arg else dn.DynGraph
             rec.check('C11.directed_arg', type(H3) is want, lambda: '%s data without key, directed=%r gave %r' % (ctx, arg, type(H3)))
+    from ..observe import observe, diff
+    ok, after = safe(observe, G, d.nodes, M.probes())
+    rec.check('C11.source_unchanged', ok and before_obs is not None and after == before_obs,
+              lambda: '%s node_link_data / node_link_graph changed the source graph in %r' % (ctx, diff(before_obs, after) if ok and before_obs else after))
     for c in d.classes:
         rec.classify(c)
     used = {x for k in M.orient for x in M.orient[k]}
